@@ -239,6 +239,8 @@ pub fn run(cfg: &Cfg, rep: &mut Report) {
             bump(ctx, 1);
             dev.clear();
             let mut resp: Vec<u8> = Vec::new();
+            // an unread earlier response (mav) must not change what is executed or reported
+            c.mav = rng.chance(1, 3);
             let r = built.root().run(&msg, &mut dev, &mut c, &mut resp);
             let got = dev.invocations();
             // expected invocations
